@@ -111,6 +111,19 @@ def gen_presets(ctx, nattr, maxpre):
     return out
 
 
+def gen_selection_histories(ctx, maxlen):
+    """Histories of coordinate selections on one grid object (SubsetHist.tla)."""
+    cfg = lambda mech, invs: "SPECIFICATION Spec\nCONSTANTS\n MaxLen = %d\n Mechanism = \"%s\"\n" % (maxlen, mech) + "".join("INVARIANT %s\n" % i for i in invs) + "CHECK_DEADLOCK FALSE\n"
+    r = ctx.tlc_ok("SubsetHist", cfg("by_kind", ["TypeOK", "Fresh", "Emit"]), what="selection histories of length %d on one grid: every selection is served by the tree of its own kind" % maxlen, timeout=1500)
+    bad = ctx.tlc("SubsetHist", cfg("set_on_build", ["TypeOK", "Fresh"]), what="SubsetHist(set_on_build): counterexample required (kind X, kind Y, kind X again)")
+    if bad.violated != "Fresh":
+        raise Machinery("SubsetHist(set_on_build) is not refuted: %r" % bad)
+    out = sorted({tuple(tuple(s) for s in p[1]) for p in r.prints if isinstance(p, tuple) and p and p[0] == "H"})
+    if not out:
+        raise Machinery("SubsetHist printed no histories")
+    return out
+
+
 def gen_behaviours(ctx, maxpre, maxacc, simulate=None, seed=0):
     kw = {}
     if simulate:
@@ -149,7 +162,7 @@ def cat_src(e):
     return {"t": "cat", "eid": catalog.eid(e)}
 
 
-def build_cases(ctx, rng, thorough, idx_cases, behaviours, sims, presets=(), attrs=()):
+def build_cases(ctx, rng, thorough, idx_cases, behaviours, sims, presets=(), attrs=(), sel_hists=()):
     cases = []
 
     def add(cid, src, prov, op, **kw):
@@ -356,15 +369,24 @@ def build_cases(ctx, rng, thorough, idx_cases, behaviours, sims, presets=(), att
     for j, (pset, kind) in enumerate(plist):
         names = [attrs[a - 1] for a in pset]
         for si in ([j % len(all_src)] if not thorough else [j % len(all_src), (j + 2) % len(all_src)]):
-            add(
-                "all:%d:%s:%s:%d" % (j, "+".join(names) or "-", kind, si),
-                all_src[si],
-                provs[(j + si) % 2],
-                {"t": "idx", "kind": kind, "idx": [], "shape": "proper", "form": "list"},
-                pre_attrs=names,
-                read_all=True,
-                bounds=True,
-            )
+            if kind in ("xsec", "faces_at"):
+                # constant-latitude queries in the bulge band of a wide face, after the attributes were read
+                op = {"t": "lat", "kind": "face", "pick": j + si, "mode": "band"}
+                if kind == "faces_at":
+                    op["faces_only"] = True
+            else:
+                op = {"t": "idx", "kind": kind, "idx": [], "shape": "proper", "form": "list"}
+            add("all:%d:%s:%s:%d" % (j, "+".join(names) or "-", kind, si), all_src[si], provs[(j + si) % 2], op, pre_attrs=names, read_all=True, bounds=True)
+    # Q. constant-latitude queries in the bulge band after Grid.bounds (or other per-face quantities) were read
+    for si, src in enumerate(all_src):
+        for j in range(6 if thorough else 3):
+            for pre_names in (["bounds"], ["bounds", "face_areas"], ["face_lat"]):
+                for kind in ("xsec", "faces_at"):
+                    k += 1
+                    op = {"t": "lat", "kind": "face", "pick": 2 * j + (k % 2), "mode": "band"}
+                    if kind == "faces_at":
+                        op["faces_only"] = True
+                    add("bulge:%d:%d:%s:%s" % (si, j, "+".join(pre_names), kind), src, provs[k % 2], op, pre_attrs=pre_names, read_all=True, bounds=True, threads=X.THREADS if kind == "faces_at" else None)
     # O. a UxDataset holding face-, node- and edge-centred variables together, sliced as a whole
     for name, rot, cut in [("cube", 0, 0), ("cuboctahedron", 0, 3), ("truncated_octahedron", 5, 0)]:
         e = catalog.entries(name=name, rot=rot, cut=cut)[0]
@@ -377,6 +399,29 @@ def build_cases(ctx, rng, thorough, idx_cases, behaviours, sims, presets=(), att
                 add("dset:%s:%s:%d" % (catalog.eid(e), kind, j), cat_src(e), ["derived", "supplied", "mpas"][k % 3], {"t": "idx", "kind": kind, "idx": idx, "form": FORMS[j % 2]}, dataset=specs)
             k += 1
             add("dset:%s:%s:slice" % (catalog.eid(e), kind), cat_src(e), provs[k % 2], {"t": "idx", "kind": kind, "idx": [], "slice": [-3, None, None]}, dataset=[{"kind": "face", "rank": 2, "axis": 1}, {"kind": "node", "rank": 1, "axis": 0}, {"kind": "edge", "rank": 3, "axis": 2}])
+    # P. histories of coordinate selections on ONE grid object, alternating operations and element kinds
+    seq_src = [catalog.entries(name=n, rot=r, cut=c)[0] for n, r, c in [("cuboctahedron", 0, 0), ("truncated_octahedron", 5, 0), ("rhombicuboctahedron", 17, 0), ("cube", 5, 0)]]
+    hs = list(sel_hists)
+    if not thorough:
+        # keep every history that returns to an element kind used before (the interference pattern), thin the rest
+        back = [h for h in hs if any(h[i][1] == h[j][1] and any(h[m][1] != h[i][1] for m in range(i + 1, j)) for i in range(len(h)) for j in range(i + 2, len(h)))]
+        rest = [h for h in hs if h not in back]
+        hs = back[:: max(1, len(back) // 150)] + rest[:: max(1, len(rest) // 60)]
+    for j, h in enumerate(hs):
+        e = seq_src[j % len(seq_src)]
+        centres = [list(v) for v in e["nodes"][:: max(1, len(e["nodes"]) // 4)]] + GENERIC_CENTRES
+        seq = []
+        for op, kind in h:
+            o = {"t": op, "kind": kind}
+            if op == "box":
+                o["pick"] = [rng.randrange(1000) for _ in range(4)]
+            else:
+                o["c"] = centres[rng.randrange(len(centres))]
+                o["pick"] = rng.randrange(1000)
+                o["cart"] = rng.random() < 0.3
+            seq.append(o)
+        k += 1
+        add("seq:%d:%s:%s" % (j, catalog.eid(e), "/".join("%s.%s" % s for s in h)), cat_src(e), provs[j % 2], {"t": "seq", "kind": "node"}, seq=seq, **({"data": data_spec(k)} if j % 4 == 0 else {}))
     # M. slice objects on the grid dimension of a UxDataArray (negative bounds and steps included)
     for name in ("cube", "cuboctahedron"):
         e = catalog.entries(name=name, rot=0, cut=0)[0]
@@ -436,7 +481,10 @@ def run(ctx):
     attrs = X.grid_attributes()
     ctx.note("grid_attributes_introspected", attrs)
     presets = gen_presets(ctx, len(attrs), 2 if thorough else 1)
-    cases = build_cases(ctx, rng, thorough, idx_cases, behaviours, sims, presets, attrs)
+    sel_hists = gen_selection_histories(ctx, 3)
+    if thorough:
+        sel_hists = sel_hists + gen_selection_histories(ctx, 4)[::7]
+    cases = build_cases(ctx, rng, thorough, idx_cases, behaviours, sims, presets, attrs, sel_hists)
     if not thorough:
         # quick tier: thin the large families by a fixed stride (deterministic)
         cap = {"box": 300, "circle": 150, "knn": 100, "xsec": 150, "faces_at": 150, "hist": 450, "fine": 160}
@@ -444,7 +492,7 @@ def run(ctx):
         for c in cases:
             fam.setdefault(c["id"].split(":")[0], []).append(c)
         cases = []
-        for f, cs in sorted(fam.items(), key=lambda kv: kv[0] not in ("bnd", "all")):
+        for f, cs in sorted(fam.items(), key=lambda kv: kv[0] not in ("bnd", "all", "bulge")):
             if f in cap and len(cs) > cap[f]:
                 step = len(cs) / float(cap[f])
                 cs = [cs[int(k * step)] for k in range(cap[f])]
@@ -454,6 +502,16 @@ def run(ctx):
         raise Machinery("duplicate case ids")
     by_id = {c["id"]: c for c in cases}
     recs = pmap(X.record_case, cases)
+    # histories of selections on one grid object come back as one record per step
+    flat = []
+    for r in recs:
+        if "_multi" in r:
+            for k, step in enumerate(r["_multi"]):
+                by_id[step["id"]] = dict(by_id[r["id"]], id=step["id"], step=k)
+                flat.append(step)
+        else:
+            flat.append(r)
+    recs = flat
     # the implementation could not provide the source grid / a projectable result: a verdict about the tree under
     # test (none occurs on the reference tree), not a failure of the harness
     unusable = {r["id"]: r["_machinery"] for r in recs if "_machinery" in r}
@@ -558,7 +616,13 @@ def replay(path):
     cases = [c for c in cases if not (c["id"] in seen or seen.add(c["id"]))]
     ctx = Ctx(PROP + "_replay", "replay", 0)
     try:
-        recs = [X.record_case(c) for c in cases]
+        recs = []
+        for c in cases:
+            c = {k: v for k, v in c.items() if k != "step"}
+            if c.get("seq"):
+                c["id"] = c["id"].rsplit(":s", 1)[0]
+            r = X.record_case(c)
+            recs += r["_multi"] if "_multi" in r else [r]
         for r in recs:
             if "_machinery" in r or "_skip" in r:
                 print("NOT-REPLAYED %s: %s" % (r["id"], r.get("_machinery") or r.get("_skip")))
